@@ -41,6 +41,7 @@ func main() {
 	hang := flag.Duration("hang", 10*time.Second, "watchdog limit per call")
 	workers := flag.Int("workers", runtime.NumCPU(), "parallel workers")
 	opt := flag.String("opt", "", "family-specific options k=v,k=v")
+	journal := flag.String("journal", "", "directory: every worker writes the line it is about to execute to <dir>/w<i> (used to find the input of a fatal crash)")
 	flag.Parse()
 
 	rep, err := lib.NewReporter(*replays, *findings)
@@ -77,7 +78,15 @@ func main() {
 		wg.Add(1)
 		go func(w int) {
 			defer wg.Done()
+			var jf *os.File
+			if *journal != "" {
+				jf, _ = os.Create(fmt.Sprintf("%s/w%d", *journal, w))
+			}
 			for j := range jobs {
+				if jf != nil {
+					jf.Truncate(0)
+					jf.WriteAt(j.raw, 0)
+				}
 				if err := e.dispatch(w, j.raw); err != nil {
 					bad.Store(err.Error(), true)
 				}
